@@ -984,7 +984,7 @@ def _jnorm(o, enc, skipkeys, sort_keys, depth=0):
         if isinstance(o, TornText):
             raise ModelGap('torn text as value')
         return o
-    if isinstance(o, symnp._ListToken):
+    if isinstance(o, (symnp._ListToken, symnp._ItemToken)):
         return o
     if isinstance(o, (list, tuple)):
         return [_jnorm(x, enc, skipkeys, sort_keys, depth + 1) for x in o]
